@@ -143,6 +143,9 @@ func main() {
 			lines = append(lines, c.Line)
 			idx = append(idx, i)
 		}
+		if dump := os.Getenv("VERIF_DUMP_LINES"); dump != "" {
+			_ = os.WriteFile(dump+"."+name+".txt", []byte(strings.Join(lines, "\n")+"\n"), 0o644)
+		}
 		if len(lines) > 0 {
 			answers, err := model.Run(lines)
 			if err != nil {
